@@ -2,6 +2,7 @@ SPECIFICATION Spec
 CONSTANTS
   Bits = 3
   NSlots = 7
+VIEW View
 INVARIANT DistinctInRange
 INVARIANT FreeDisjoint
 INVARIANT ErrorOnlyWhenFull
